@@ -2,7 +2,7 @@
    commits of the work-C18 branch, and the inputs on which they violate the
    property (replayed on the real code: corpus/C18/defects.txt). *)
 From Coq Require Import List ZArith Bool.
-From RtoscV Require Import Osc.OscModel Ports.MetaModel Ports.NameModel Ports.PathModel.
+From RtoscV Require Import Match.PatSpec Match.MatchModel Osc.OscModel Ports.MetaModel Ports.NameModel Ports.PathModel.
 Import ListNotations.
 Local Open Scope Z_scope.
 
